@@ -424,6 +424,8 @@ class ExprMixin:
         self.oblige('bounds', z3.And(i >= -n, i < n), st, node, '%s in range (IndexError)' % what)
         if is_cint(idx):
             return idx if idx >= 0 else n + idx
+        if not self.is_feasible(st, i < 0):
+            return idx          # provably non-negative on this path: no wrap-around
         return z3.If(i < 0, i + n, i)
 
     def index_value(self, base, idx, node, st):
@@ -462,6 +464,8 @@ class ExprMixin:
                 h = self.rec_getitem(obj, base, idx, node, st)
                 if h is not NotImplemented:
                     return h
+        if self.spec_mode and (is_val(base) or is_int(base) or base is None):
+            raise PathEnd()      # undefined term: handled by implies() / reported by eval_spec
         raise Unsupported('subscript of %r (line %s, %s)' % (type(base), getattr(node, 'lineno', '?'), self.fname))
 
     def arr_read(self, obj, idx, node, st):
